@@ -1580,9 +1580,11 @@ def gen_for_block(node, code, codegen):
             (f'push1{type_char}', 1),
             ('storel', step_sign_var),
         )
+    # (the loop variable is read and written like any other
+    # lvalue: it may be a parameter, i.e. a reference)
     codegen.gen_code_for_node(node.from_expr, code)
     gen_code_for_conv(var_type, node.from_expr, code, codegen)
-    code.add((f'store{scope}', var.name))
+    gen_lvalue_write(node.var, code, codegen)
     codegen.gen_code_for_node(node.to_expr, code)
     gen_code_for_conv(var_type, node.to_expr, code, codegen)
     code.add(('storel', to_var))
@@ -1599,14 +1601,18 @@ def gen_for_block(node, code, codegen):
         ('cmp',),
         ('lt',),
         ('jz', up_label),
-        (f'read{scope}{type_char}', var.name),
+    )
+    codegen.gen_code_for_node(node.var, code)
+    code.add(
         (f'readl{type_char}', to_var),
         ('cmp',),
         ('ge',),
         ('jz', end_label),
         ('jmp', body_label),
         ('_label', up_label),
-        (f'read{scope}{type_char}', var.name),
+    )
+    codegen.gen_code_for_node(node.var, code)
+    code.add(
         (f'readl{type_char}', to_var),
         ('cmp',),
         ('le',),
@@ -1616,14 +1622,14 @@ def gen_for_block(node, code, codegen):
     code.add(('_label', body_label))
     gen_code_for_block(node.body, code, codegen)
 
+    code.add(('_label', next_label))
+    codegen.gen_code_for_node(node.var, code)
     code.add(
-        ('_label', next_label),
-        (f'read{scope}{type_char}', var.name),
         (f'readl{type_char}', step_var),
         ('add',),
-        (f'store{scope}', var.name),
-        ('jmp', check_label),
     )
+    gen_lvalue_write(node.var, code, codegen)
+    code.add(('jmp', check_label))
 
     code.add(('_label', end_label))
 
